@@ -429,6 +429,39 @@ func (j *c18Judge) lane(l *c18Lane) {
 				if probs := closure(postD); len(probs) > 0 {
 					j.add("mirror/closure-incomplete", "%s:%s → %s is incomplete at the target: %v", l.TgtRepo, t, c18Short(postD), probs)
 				}
+				// requested company of the image: its referrers (recursively) and its digest tags. Judged for
+				// whole-image mirrors written or refreshed by this run (no platform narrowing, no media-type
+				// restriction; with fastCheck a target that already matched is not refreshed)
+				refreshed := preD != postD || !e.has("fastCheck")
+				if postD == wn.Src && e.Platform == "" && e.MediaTypes == "" && c.Action == "copy" && refreshed && srcRaw != nil && tgtRaw != nil {
+					if e.has("referrers") {
+						var walkRef func(subj string, depth int)
+						walkRef = func(subj string, depth int) {
+							for _, rd := range srcRaw.Referrers(subj) {
+								j.count("clause.company.referrers_judged", 1)
+								var present bool
+								j.w.net.With(func() { _, present = tgtRaw.Manifests[rd.Digest] })
+								if !present {
+									j.add("mirror/referrer-missing", "referrers are requested; %s (%s) refers to %s:%s at the source but is not at the target after a successful run", c18Short(rd.Digest), rd.ArtifactType, l.SrcRepo, wn.SrcTag)
+								} else if depth < 3 {
+									walkRef(rd.Digest, depth+1)
+								}
+							}
+						}
+						walkRef(wn.Src, 0)
+					}
+					if e.has("digestTags") {
+						pfx := strings.Replace(wn.Src, ":", "-", 1)
+						for st, sd := range srcSnap.Tags {
+							if strings.HasPrefix(st, pfx) && st != pfx {
+								j.count("clause.company.digest_tags_judged", 1)
+								if postT[st] != sd {
+									j.add("mirror/digest-tag-missing", "digest tags are requested; source tag %s → %s belongs to %s:%s but the target has %q after a successful run", st, c18Short(sd), l.SrcRepo, wn.SrcTag, c18Short(postT[st]))
+								}
+							}
+						}
+					}
+				}
 			}
 		}
 	}
